@@ -304,7 +304,10 @@ class DecisionMatrixDominanceAccessor(AccessorABC):
     def _dominators_of(self, a, *, strict=False):
         dominance_a = self.dominance(strict=strict)[a]
         if ~dominance_a.any():
-            return np.array([], dtype=str)
+            # empty, with the dtype of the labels: alternatives need not be
+            # strings, and an empty array of str would turn the labels of
+            # every chain it is concatenated to into strings
+            return dominance_a.index[:0].to_numpy()
 
         dominators = dominance_a.index[dominance_a]
         for dominator in dominators:
